@@ -5,6 +5,9 @@ use crate::choice::Ch;
 use crate::device::BOUNDARY;
 use crate::model::*;
 
+/// bound of the `random` calls planted in unselected `ite` branches
+pub const LAZY_SENTINEL: u64 = 7919;
+
 pub const IN_NAMES: [&str; 6] = ["A", "B", "CLK", "D", "S", "EN"];
 pub const IN_ODD: [&str; 5] = ["A-~R", "é", "#1", "loop", "bits"];
 pub const OUT_NAMES: [&str; 5] = ["Q", "R", "Y", "T", "P"];
@@ -587,7 +590,9 @@ fn gen_expr_inner(ch: &mut Ch, depth: u32, env: &ExprEnv) -> Expr {
                     1 => Expr::bin(BinOp::Rem, gen_leaf(ch, env), Expr::lit(0)),
                     2 => Expr::SignExt(Box::new(Expr::lit(1)), Box::new(Expr::lit(2))),
                     // a valid bound: an eager ite would draw (and nothing else would show it)
-                    _ => Expr::Random(Box::new(Expr::lit(if ch.chance(1, 2) { 5 } else { 0 }))),
+                    // LAZY_SENTINEL is used nowhere else as a bound, so a draw with it in the
+                    // crate's log proves that an unselected branch was evaluated
+                    _ => Expr::Random(Box::new(Expr::lit(if ch.chance(1, 2) { LAZY_SENTINEL } else { 0 }))),
                 };
                 let live = gen_expr_inner(ch, depth - 1, env);
                 return if ch.chance(1, 2) {
